@@ -110,7 +110,7 @@ MARKER_FAULTS = ['drop_marker', 'drop_triple_markers', 'drop_layout_markers', 'd
                  'add_push', 'add_push_top', 'add_pop', 'dup_markers', 'swap_markers', 'move_markers',
                  'stale_entry', 'fresh_pop', 'alias_lists', 'reverse_markers']
 REORDERINGS = ['swap_triples', 'rotate', 'reverse', 'shuffle', 'sort_by_role', 'move_triple']
-CONTENT_EDITS = ['add_attr', 'add_edge', 'add_node', 'add_island', 'remove_triple', 'set_top']
+CONTENT_EDITS = ['add_attr', 'add_edge', 'add_node', 'add_island', 'remove_triple', 'set_top', 'rename_var']
 ILLFORMED_EDITS = ['dup_triple', 'dup_instance', 'drop_instance']
 
 EDIT_ROLES = [':ARG0', ':ARG1', ':mod', ':op1', ':op2', ':domain', ':quant', ':name', ':polarity']
@@ -331,7 +331,28 @@ def _apply_op(g, op, res=None):
     if name == 'set_top':
         if not vs:
             return None
-        g.top = vs[a % len(vs)]
+        g._top = vs[a % len(vs)]      # directly: edits never go through penman code under test
+        return name
+    if name == 'rename_var':
+        # the same number of triples, the same top slot, a different set of variables
+        if not vs:
+            return None
+        old = vs[a % len(vs)]
+        k = 1
+        while f'w{k}' in set(vs) or any(f'w{k}' == t[2] for t in T):
+            k += 1
+        new = f'w{k}'
+        ren = lambda x: new if x == old else x
+        newT = [(ren(s_), r_, t_ if r_ == ':instance' else ren(t_)) for s_, r_, t_ in T]
+        epi = {}
+        for t_, l in g.epidata.items():
+            nt = (ren(t_[0]), t_[1], t_[2] if t_[1] == ':instance' else ren(t_[2]))
+            epi[nt] = [Push(new) if (isinstance(e, Push) and e.variable == old) else e for e in l]
+        T[:] = newT
+        g.epidata.clear()
+        g.epidata.update(epi)
+        if g._top == old:
+            g._top = new
         return name
 
     # ---- ill-formed lists (totality / error precision clause only) --------------------
